@@ -42,9 +42,34 @@ asserted about the choice itself, the model only needs *a* successor state):
   * which update "answers" a request: a full/compressed update for (region, local) answers ``request_objects``,
     ObjectProperties(Family) for the object at (region, local) answers ``request_object_properties``; terse and cached
     updates are allowed to resolve UPDATE futures but not required to.
+Oracle after every event (one clause per sentence; a later group is only evaluated when the earlier ones hold, so a
+finding is reported at its root):
+  no-handler-raises            nothing raised: exceptions swallowed by Event.notify are seen through a recorder that
+                               stands in for events.LOG; direct API calls and loop callbacks are wrapped
+  untracked-region-empty       a torn-down region holds no objects / orphans / missing locals
+  local-index-vs-model         lookup_localid(l) (every region, every local) == model, incl. FullID/ParentID/RegionHandle
+  full-index-vs-model          session lookup_fullid / all_objects / len and region lookup_fullid == model
+  lookup-agreement             lookup_fullid(f) is the very object lookup_localid(l) returns
+  children-vs-parent-links     ChildIDs (no duplicates) == tracked objects naming it as parent; Children pairwise == ChildIDs
+  parent-link                  Parent is the tracked parent (live weak reference) / None when the parent is unknown
+  orphan-held / orphans-exact  unknown parent => exactly once in _orphans[parent]; _orphans holds nothing else
+  avatar-index-vs-model        all_avatars with an Object == live avatar objects (lookup by full ID through the avatar view)
+  missing-cleared-on-track / orphan-parent-missing    step postconditions on missing_locals (announced local is not
+                               missing any more; a parent that was looked for and not found is)
+  future-cancelled-on-kill / future-done-on-untrack / future-done-on-region-clear / future-resolved-on-answer
+Sites name the handler of the event plus the scenario tag (or, for exceptions, the innermost library frame, exception
+type and scenario tag), so findings with different causes do not share a key.
+
+Search plan (``BOUNDS``): profile "graph" = {A, K, KM, TD, RT} only -- little auxiliary state, so the single-region
+search runs until (almost) no new state appears; profile "full" = every event, shallower because requests, properties,
+missing locals and timers multiply the state.  Two-region searches use 2 local IDs per region.  The explorer does not
+extend a history past a violation, so states that are only reachable through a reported defect are not explored.
+
 Deviation from DESIGN: CRC is fixed per source instead of ranging over {1,2} on every message; the third region of the
-design is dropped (each of the two regions can be torn down and re-tracked, which gives the same situations); a
-1-region search goes deeper than the 2-region search (measured rates are in the evidence).
+design is dropped (each of the two regions can be torn down and re-tracked, which gives the same situations); depth 6
+over the whole alphabet does not fit the budget (about 40-60 enabled events per state, 2.5-4 ms per transition because a
+state is re-created by replaying its history on a fresh Session), hence the two profiles; measured rates are in the
+evidence (``coverage.searches``).
 """
 from __future__ import annotations
 
